@@ -61,7 +61,9 @@ def _world(mode):
             ("pygopherd", "abstract_entries"): "always",
             ("pygopherd", "abstract_headers"): "on",
             ("pygopherd", "servername"): SERVER["host"],
-            ("pygopherd", "advertisedport"): SERVER["port"]})
+            ("pygopherd", "advertisedport"): SERVER["port"],
+            # FileInfo in spec/UMN.tla describes the tree without decompressors (World "full" configures gzip)
+            ("handlers.file.CompressedFileHandler", "decompressors"): "{}"})
         _WMODE = mode
     return _W
 
